@@ -72,6 +72,7 @@ type Mutant struct {
 	Old, New   string // textual patch; Old must occur exactly once
 	Old2, New2 string // optional second hunk in the same file (e.g. an import)
 	Expect     string // rule prefix that must report a violation/undecided
+	All        bool   // Old occurs several times (sibling arms with identical text): replace every occurrence
 }
 
 var Mutants []Mutant
@@ -91,10 +92,13 @@ func ApplyMutant(repo string, m Mutant) (map[string][]byte, bool) {
 	if err != nil {
 		return nil, false
 	}
-	if bytes.Count(src, []byte(m.Old)) != 1 {
+	if n := bytes.Count(src, []byte(m.Old)); n != 1 && !(m.All && n > 1) {
 		return nil, false
 	}
 	out := bytes.Replace(src, []byte(m.Old), []byte(m.New), 1)
+	if m.All {
+		out = bytes.ReplaceAll(src, []byte(m.Old), []byte(m.New))
+	}
 	if m.Old2 != "" {
 		if bytes.Count(out, []byte(m.Old2)) != 1 {
 			return nil, false
